@@ -18,7 +18,7 @@ use serde::{Deserialize, Serialize};
 use std::collections::{HashMap, HashSet};
 use vcommon::{pick_index, Ctx, Verdict};
 use vsim::agent::{Act, AgentFlags, Ev};
-use vsim::{arb_cap, arb_sched_op, arb_small_cap, FrameKind, Op, Req, SimParams};
+use vsim::{arb_cap, arb_sched_op, FrameKind, Op, Req, SimParams};
 
 const ALL: [&str; 7] = ["v0", "v1", "vt", "m0", "m1", "mt", "ctl"];
 
@@ -71,7 +71,7 @@ fn arb_cmd(nkeys: usize) -> impl Strategy<Value = MapCmd> {
 
 fn arb_gop(nprogs: usize, nkeys: usize) -> impl Strategy<Value = GOp> {
     prop_oneof![
-        2 => (arb_small_cap(), arb_small_cap()).prop_map(|(in_cap, out_cap)| GOp::Plain(Op::Attach { in_cap, out_cap })),
+        2 => arb_attach().prop_map(GOp::Plain),
         2 => (any::<u16>(), any::<u8>()).prop_map(|(r, l)| GOp::Link { r, l }),
         6 => (any::<u16>(), any::<u8>()).prop_map(|(r, l)| GOp::Sync { r, l }),
         10 => (any::<u16>(), any::<u8>(), arb_cmd(nkeys)).prop_map(|(r, l, cmd)| GOp::Mut { r, l, cmd }),
